@@ -464,18 +464,37 @@ def _sort_key(c):
 def run(ctx):
     from cuqiverif.core import MachineryError
     from cuqiverif import tlc as _tlc
+    import concurrent.futures, os
     cuqi = _pde_mod()
-    res = ctx.tlc("PDE", cfg="PDE.%s.cfg" % ctx.tier, workers=16, timeout=1500, require_actions=["Start", "Step"])
-    ctx.model_must_hold(res, "PDE")
-    cases = sorted(res.cases, key=_sort_key)
-    _tlc.cleanup(res)
-    if set(c["kind"] for c in cases) != {"steady", "time", "tobs", "sobs"}:
-        raise MachineryError("PDE emitted kinds %r" % sorted(set(c["kind"] for c in cases)))
-    for dev in ("OperatorAtOldTime", "DtFromNextInterval"):
-        r2 = ctx.tlc("PDE", cfg="PDE.dev_%s.cfg" % dev, workers=4, timeout=600, expect_violation=True)
-        if r2.ok or r2.violated != "DiscreteEquation":
-            raise MachineryError("deviation %s does not violate DiscreteEquation on the model (violated=%r)" % (dev, r2.violated))
-        _tlc.cleanup(r2)
+    devs = ("OperatorAtOldTime", "DtFromNextInterval")
+    wd = lambda label: os.path.join(_tlc.WORK, "PDE-c18-%s-%d" % (label, os.getpid()))
+    # the (small) deviation runs are started together with the main run (JVM starts in sequence cost minutes on a loaded machine)
+    pool = concurrent.futures.ThreadPoolExecutor(max_workers=2)
+    fut = {dev: pool.submit(ctx.tlc, "PDE", cfg="PDE.dev_%s.cfg" % dev, workers=2, timeout=2400, expect_violation=True,
+                            workdir=wd(dev)) for dev in devs}
+    try:
+        res = ctx.tlc("PDE", cfg="PDE.%s.cfg" % ctx.tier, workers=16, timeout=3600, require_actions=["Start", "Step"],
+                      workdir=wd("main"))
+    except BaseException:
+        concurrent.futures.wait(list(fut.values()))
+        for label in ["main"] + list(devs):                       # nothing of a failed run stays under .work
+            _tlc.cleanup(wd(label))
+        raise
+    finally:
+        concurrent.futures.wait(list(fut.values()))
+        pool.shutdown()
+    try:
+        ctx.model_must_hold(res, "PDE")
+        cases = sorted(res.cases, key=_sort_key)
+        if set(c["kind"] for c in cases) != {"steady", "time", "tobs", "sobs"}:
+            raise MachineryError("PDE emitted kinds %r" % sorted(set(c["kind"] for c in cases)))
+        for dev in devs:
+            r2 = fut[dev].result()
+            if r2.ok or r2.violated != "DiscreteEquation":
+                raise MachineryError("deviation %s does not violate DiscreteEquation on the model (violated=%r)" % (dev, r2.violated))
+    finally:
+        for label in ["main"] + list(devs):
+            _tlc.cleanup(wd(label))
     counts = _dispatch(ctx, cuqi, cases)
     observe_small_grids(ctx, cuqi)
     ctx.observe("cases_by_kind", counts)
